@@ -177,6 +177,13 @@ class Hooks:
             return False
         return ok
 
+    def arm_early_reject(self, ch):
+        """With a wrong password, LOGIN may be refused right after the user name (no password challenge)."""
+        srv = self.world.server
+        srv.login_early_reject = False
+        if self._is("verdict") and self.fault[1] == "badpw":
+            srv.login_early_reject = ch.srv.flag("login_early_reject", 1, 2)
+
 
 def conn_of(client, world):
     s = getattr(client, "sock", None)
@@ -331,6 +338,7 @@ def run(ch, config, res):
                     srv.bye_with_referral = False
                     srv.no_with_sasl_code = False
                     srv.cfg.users = {"user": "password"}
+                    hooks.arm_early_reject(ch)
                     kw = {"starttls": ST_VALUES[st_arg], "authmech": AUTHMECHS[am]}
                     o, failure = do(client, "connect", ("user", "password"), kw)
                     if hooks.fired:
@@ -346,6 +354,7 @@ def run(ch, config, res):
                         hooks.fault = ("greeting", "close")
                     else:
                         hooks.fault = None
+                    hooks.arm_early_reject(ch)
                     kw = {"starttls": ST_VALUES[st_arg], "authmech": AUTHMECHS[am]}
                     o, failure = do(client, "connect", ("user", "password"), kw)
                     if hooks.fired:
